@@ -237,7 +237,7 @@ impl ACase {
         let mut p = self.roots[k].clone();
         if !steps.is_empty() {
             for st in steps.split(',') {
-                if st == "p" { p = p.parent(); } else { p = p.join(&String::from_utf8(unhex(&st[1..])).unwrap())?; }
+                if st == "p" { p = p.parent(); } else if st == "r" { p = p.root(); } else { p = p.join(&String::from_utf8(unhex(&st[1..])).unwrap())?; }
             }
         }
         Ok(p)
